@@ -287,6 +287,52 @@ def gen_multi(rng, kind):
     return cap, ntasks, ops
 
 
+def custom_layout_cases(chk, rng, n):
+    """buffers constructed with their own keys / dtypes: every field comes back as stored, in the documented storage dtype"""
+    from rl_blox.blox import replay_buffer as rbm
+    from stubs import StubRng
+    keys = ["observation", "action", "reward", "next_observation", "discount"]
+    for i in range(n):
+        kind = ["uniform", "lap", "per"][i % 3]
+        cls = {"uniform": rbm.ReplayBuffer, "lap": rbm.LAP, "per": rbm.PrioritizedReplayBuffer}[kind]
+        dts = [[np.float32, np.float32, np.float32, np.float32, np.float64], [np.float64, np.int32, np.float32, np.float64, np.float32],
+               [np.float64, np.float64, np.float64, np.float64, np.float64]][(i // 3) % 3]
+        cap = int(rng.integers(1, 6))
+        case = {"class": kind, "capacity": cap, "keys": keys, "dtypes": [np.dtype(d).name for d in dts]}
+        ok, buf = chk.impl_call(f"C02:{kind}:custom-layout-raised", case, cls, cap, keys, dts)
+        chk.case(("layout", kind, cap, i))
+        chk.count("custom_layout_cases")
+        if not ok:
+            continue
+        rows = []
+        for k in range(int(rng.integers(1, 2 * cap + 2))):
+            row = {"observation": k + 0.5, "action": float(k % 3), "reward": k / 4.0, "next_observation": k + 1.5, "discount": 0.99 - k / 64.0}
+            ok, _ = chk.impl_call(f"C02:{kind}:custom-layout-raised", {**case, "row": row}, lambda r=row: buf.add_sample(**r))
+            rows.append(row)
+        n_now = len(buf)
+        got_dt = [np.dtype(buf.buffer[k_].dtype).name for k_ in keys]
+        if got_dt != [np.dtype(d).name for d in dts]:
+            chk.fail(f"C02:{kind}:storage-dtype", "the buffer does not store its fields in the dtypes it was constructed with", {"case": case, "storage_dtypes": got_dt})
+            continue
+        stub = StubRng()
+        from fractions import Fraction
+        stub.int_fracs = [Fraction(2 * j + 1, 2 * n_now) for j in range(n_now)]      # one draw per stored slot
+        stub.uniforms = [(j + 0.5) / n_now for j in range(n_now)]
+        ok, res = chk.impl_call(f"C02:{kind}:custom-layout-raised", case, buf.sample_batch, n_now, stub)
+        if not ok:
+            continue
+        batch = res[0] if kind == "per" else res
+        kept = rows[-n_now:]
+        # batches are JAX arrays (float32 without x64): stored value in the storage dtype, then the batch's float32
+        exp = {tuple(float(np.asarray(r[k_]).astype(d).astype(np.float32)) for k_, d in zip(keys, dts)) for r in kept}
+        for j in range(n_now):
+            tup = tuple(float(np.asarray(getattr(batch, k_))[j]) for k_ in keys)
+            if tup not in exp:
+                chk.fail(f"C02:{kind}:custom-layout-row", "a sampled row of a buffer with custom keys / dtypes is not one of the stored transitions (cast to the storage dtype)",
+                         {"case": case, "sampled": tup, "stored_last": sorted(exp)[:3]})
+                break
+
+
 def main(chk):
     chk.proof_step()
     rng = np.random.default_rng(chk.seed)
@@ -314,6 +360,7 @@ def main(chk):
             exprs.append(model_expr_multi(kind, cap, nt, mops))
             chk.case((kind, cap, nt, len(ops), hash(str(ops))), nontrivial=len(ops) >= 3)
             chk.count(f"histories_{kind}")
+    custom_layout_cases(chk, rng, 18 if chk.tier == "quick" else 300)
     mres = chk.model_eval(exprs)
     for (tag, rec), mr in zip(recs, mres):
         if tag == "single":
